@@ -68,36 +68,15 @@ Proof.
   rewrite skipn_all2 by (rewrite resize4_length; lia). reflexivity.
 Qed.
 
-Lemma prefix_of_small ovf n : n + 4 < 4294967296 -> prefix_of ovf (4 + n) = Some n.
+Lemma prefix_of_ok n : n < 4294967296 -> prefix_of (4 + n) = Some n.
 Proof.
-  intro H. unfold prefix_of. rewrite N.mod_small by lia.
-  destruct (N.ltb_spec (4 + n) 4); [lia|]. f_equal. lia.
+  intro H. unfold prefix_of. destruct (N.ltb_spec (4 + n) 4); [lia|].
+  replace (4 + n - 4) with n by lia. now rewrite N.mod_small.
 Qed.
 
-(* release build: the wrap-around gives the right prefix for every payload a u32 max_len admits *)
-Lemma prefix_of_release n : n < 4294967296 -> prefix_of false (4 + n) = Some n.
-Proof.
-  intro H. unfold prefix_of.
-  destruct (N.ltb_spec n 4294967292) as [Hs|Hs].
-  - rewrite N.mod_small by lia. destruct (N.ltb_spec (4 + n) 4); [lia|]. f_equal. lia.
-  - replace ((4 + n) mod 4294967296) with (4 + n - 4294967296).
-    2:{ apply N.mod_unique with (q := 1); lia. }
-    destruct (N.ltb_spec (4 + n - 4294967296) 4); [|lia]. f_equal.
-    replace (4 + n - 4294967296 + 4294967296 - 4) with n by lia. apply N.mod_small. lia.
-Qed.
-
-(* debug build: payloads of 2^32-4 .. 2^32-1 bytes make `len as u32 - 4` underflow *)
-Lemma prefix_of_debug_panics n : 4294967292 <= n < 4294967296 -> prefix_of true (4 + n) = None.
-Proof.
-  intro H. unfold prefix_of.
-  replace ((4 + n) mod 4294967296) with (4 + n - 4294967296).
-  2:{ apply N.mod_unique with (q := 1); lia. }
-  destruct (N.ltb_spec (4 + n - 4294967296) 4); [reflexivity|lia].
-Qed.
-
-Lemma build_frame_ok ovf buf0 max p :
-  len p <= max -> len p + 4 < 4294967296 ->
-  build_frame ovf buf0 max (EncOk p) = BOk (frame_of p).
+Lemma build_frame_ok buf0 max p :
+  len p <= max -> len p < 4294967296 ->
+  build_frame buf0 max (EncOk p) = BOk (frame_of p).
 Proof.
   intros Hm Hs. unfold build_frame.
   assert (L : len (resize4 buf0 ++ p) = 4 + len p).
@@ -105,24 +84,11 @@ Proof.
   rewrite L. destruct (N.ltb_spec (4 + len p) 4); [lia|].
   replace (4 + len p - 4) with (len p) by lia.
   destruct (N.ltb_spec max (len p)); [lia|].
-  rewrite prefix_of_small by lia. rewrite skipn4_resize4. reflexivity.
+  rewrite prefix_of_ok by lia. rewrite skipn4_resize4. reflexivity.
 Qed.
 
-Lemma build_frame_release buf0 max p :
-  len p <= max -> max < 4294967296 ->
-  build_frame false buf0 max (EncOk p) = BOk (frame_of p).
-Proof.
-  intros Hm Hs. unfold build_frame.
-  assert (L : len (resize4 buf0 ++ p) = 4 + len p).
-  { rewrite len_app. unfold len at 1. rewrite resize4_length. reflexivity. }
-  rewrite L. destruct (N.ltb_spec (4 + len p) 4); [lia|].
-  replace (4 + len p - 4) with (len p) by lia.
-  destruct (N.ltb_spec max (len p)); [lia|].
-  rewrite prefix_of_release by lia. rewrite skipn4_resize4. reflexivity.
-Qed.
-
-Lemma build_frame_too_long ovf buf0 max p :
-  max < len p -> build_frame ovf buf0 max (EncOk p) = BErr IoInvalidLen (resize4 buf0 ++ p).
+Lemma build_frame_too_long buf0 max p :
+  max < len p -> build_frame buf0 max (EncOk p) = BErr IoInvalidLen (resize4 buf0 ++ p).
 Proof.
   intros Hm. unfold build_frame.
   assert (L : len (resize4 buf0 ++ p) = 4 + len p).
@@ -132,43 +98,41 @@ Proof.
   destruct (N.ltb_spec max (len p)); [reflexivity|lia].
 Qed.
 
-Lemma build_frame_debug_panics buf0 max p :
-  4294967292 <= len p < 4294967296 -> len p <= max ->
-  build_frame true buf0 max (EncOk p) = BPanic (resize4 buf0 ++ p).
+(* the usize subtraction `len - 4` never underflows: build_frame never panics *)
+Lemma build_frame_no_panic buf0 max e b : build_frame buf0 max e <> BPanic b.
 Proof.
-  intros Hp Hm. unfold build_frame.
+  unfold build_frame. destruct e as [p|part]; [|discriminate].
   assert (L : len (resize4 buf0 ++ p) = 4 + len p).
   { rewrite len_app. unfold len at 1. rewrite resize4_length. reflexivity. }
   rewrite L. destruct (N.ltb_spec (4 + len p) 4); [lia|].
-  replace (4 + len p - 4) with (len p) by lia.
-  destruct (N.ltb_spec max (len p)); [lia|].
-  now rewrite prefix_of_debug_panics.
+  destruct (max <? 4 + len p - 4); [discriminate|].
+  unfold prefix_of. destruct (N.ltb_spec (4 + len p) 4); [lia|discriminate].
 Qed.
 
 Lemma len_frame_of p : len (frame_of p) = 4 + len p.
 Proof. unfold frame_of. now rewrite len_app, len_be. Qed.
 
 (* C14_frame *)
-Lemma write_with_frame ovf w p :
-  len p <= w_max w -> len p + 4 < 4294967296 ->
-  write_with ovf w (EncOk p) true = (WOk (len p), mkwriter (frame_of p) (w_max w), [be 4 (len p) ++ p]).
+Lemma write_with_frame w p :
+  len p <= w_max w -> len p < 4294967296 ->
+  write_with w (EncOk p) true = (WOk (len p), mkwriter (frame_of p) (w_max w), [be 4 (len p) ++ p]).
 Proof.
   intros Hm Hs. unfold write_with. rewrite build_frame_ok by assumption.
   rewrite len_frame_of. replace (4 + len p - 4) with (len p) by lia. reflexivity.
 Qed.
 
-Lemma write_with_too_long ovf w p ok :
-  w_max w < len p -> exists b, write_with ovf w (EncOk p) ok = (WErr IoInvalidLen, mkwriter b (w_max w), []).
+Lemma write_with_too_long w p ok :
+  w_max w < len p -> exists b, write_with w (EncOk p) ok = (WErr IoInvalidLen, mkwriter b (w_max w), []).
 Proof. intro H. unfold write_with. rewrite build_frame_too_long by assumption. eexists. reflexivity. Qed.
 
-Lemma write_with_enc_fail ovf w part ok :
-  exists b, write_with ovf w (EncFail part) ok = (WErr IoEncode, mkwriter b (w_max w), []).
+Lemma write_with_enc_fail w part ok :
+  exists b, write_with w (EncFail part) ok = (WErr IoEncode, mkwriter b (w_max w), []).
 Proof. unfold write_with, build_frame. eexists. reflexivity. Qed.
 
 (* whatever happens, a single write call hands at most one chunk to the sink, and it is a frame
    of at most max_len payload bytes *)
-Lemma write_with_bounded ovf w e ok r w' cs :
-  write_with ovf w e ok = (r, w', cs) ->
+Lemma write_with_bounded w e ok r w' cs :
+  write_with w e ok = (r, w', cs) ->
   w_max w' = w_max w /\ (cs = [] \/ exists b, cs = [b] /\ len b <= w_max w + 4 /\ r = WOk (len b - 4)).
 Proof.
   unfold write_with, build_frame. destruct e as [p|part].
@@ -177,7 +141,7 @@ Proof.
     { unfold b. rewrite len_app. unfold len at 1. rewrite resize4_length. reflexivity. }
     destruct (N.ltb_spec (len b) 4); [intros [= <- <- <-]; auto|].
     destruct (N.ltb_spec (w_max w) (len b - 4)); [intros [= <- <- <-]; auto|].
-    destruct (prefix_of ovf (len b)) as [n|]; [|intros [= <- <- <-]; auto].
+    destruct (prefix_of (len b)) as [n|]; [|intros [= <- <- <-]; auto].
     assert (Lfb : len (be 4 n ++ skipn 4 b) = len b).
     { unfold len in *. rewrite app_length, be_length, skipn_length. lia. }
     remember (be 4 n ++ skipn 4 b) as fb eqn:Efb. clear Efb.
@@ -187,9 +151,9 @@ Proof.
 Qed.
 
 (* a sequence of fitting values produces exactly the concatenation of their frames, one chunk each *)
-Lemma write_seq_stream ovf w ps :
-  Forall (fun p => len p <= w_max w /\ len p + 4 < 4294967296) ps ->
-  exists w', write_seq ovf w (map (fun p => (EncOk p, true)) ps) = (map (fun p => WOk (len p)) ps, w', map frame_of ps)
+Lemma write_seq_stream w ps :
+  Forall (fun p => len p <= w_max w /\ len p < 4294967296) ps ->
+  exists w', write_seq w (map (fun p => (EncOk p, true)) ps) = (map (fun p => WOk (len p)) ps, w', map frame_of ps)
              /\ w_max w' = w_max w.
 Proof.
   revert w. induction ps as [|p ps IH]; intros w H; cbn [map write_seq].
@@ -901,12 +865,12 @@ Variable enc : V -> enc_res.
 Variable dec : bytes -> option V.
 Hypothesis dec_enc : forall v p, enc v = EncOk p -> dec p = Some v.
 
-Theorem fio_e2e ovf max vs ps sched wb rb pk c :
+Theorem fio_e2e max vs ps sched wb rb pk c :
   Forall2 (fun v p => enc v = EncOk p) vs ps ->
-  Forall (fun p => len p <= max /\ len p + 4 < 4294967296) ps ->
+  Forall (fits max) ps ->
   Forall tok_ok sched ->
   exists w' r' s',
-    write_seq ovf (mkwriter wb max) (map (fun v => (enc v, true)) vs)
+    write_seq (mkwriter wb max) (map (fun v => (enc v, true)) vs)
       = (map (fun p => WOk (len p)) ps, w', map frame_of ps)
     /\ read_stream V dec (mkreader rb max pk) (mksrc (concat (map frame_of ps)) sched c)
       = (map OVal vs ++ [OEnd], r', s')
@@ -918,10 +882,8 @@ Proof.
   assert (E2 : map (decode_outcome V dec) ps = map OVal vs).
   { clear - H2 dec_enc. induction H2 as [|v p vs ps Hvp _ IH]; [reflexivity|]. cbn [map]. rewrite IH. f_equal.
     unfold decode_outcome. now rewrite (dec_enc v p Hvp). }
-  destruct (write_seq_stream ovf (mkwriter wb max) ps Hfit) as [w' [Ew _]].
-  assert (Hfit' : Forall (fits max) ps).
-  { eapply Forall_impl; [|exact Hfit]. intros p [A B]. split; lia. }
-  destruct (fio_roundtrip V dec max ps sched rb pk c Hfit' Hs) as [r' [s' [Er Hd]]].
+  destruct (write_seq_stream (mkwriter wb max) ps Hfit) as [w' [Ew _]].
+  destruct (fio_roundtrip V dec max ps sched rb pk c Hfit Hs) as [r' [s' [Er Hd]]].
   exists w', r', s'. rewrite E1, <- E2. auto.
 Qed.
 
@@ -931,25 +893,22 @@ Example fio_e2e_ex :
   let enc := fun v : bytes => EncOk v in
   let dec := fun p : bytes => Some p in
   (forall v p, enc v = EncOk p -> dec p = Some v) /\
-  fst (fst (write_seq true (mkwriter [] 8) [(enc [1; 2], true); (enc [], true)])) = [WOk 2; WOk 0].
+  fst (fst (write_seq (mkwriter [] 8) [(enc [1; 2], true); (enc [], true)])) = [WOk 2; WOk 0].
 Proof. split; [intros v p [= ->]; reflexivity|vm_compute; reflexivity]. Qed.
 
-(* the debug-build hypothesis |payload| + 4 < 2^32 cannot be dropped: payloads of 2^32-4 .. 2^32-1 bytes,
-   admitted by max_len = u32::MAX, make `len as u32 - 4` underflow (panic with overflow checks on) *)
-Lemma fio_write_debug_refuted :
-  exists w p, len p <= w_max w /\ fst (fst (write_with true w (EncOk p) true)) = WPanic.
-Proof.
-  exists (mkwriter [] 4294967295), (repeat 0 (N.to_nat 4294967292)).
-  assert (L : len (repeat 0 (N.to_nat 4294967292)) = 4294967292) by (rewrite len_repeat; lia).
-  split; [cbn [w_max]; rewrite L; lia|].
-  unfold write_with. cbn [w_buf w_max]. rewrite build_frame_debug_panics; [reflexivity| |]; rewrite L; lia.
-Qed.
-
-(* ... while the release build (wrapping subtraction) writes the right prefix for every admissible payload *)
-Lemma write_with_frame_release w p :
+(* max_len is set from a u32 (Writer::set_max_len; default 512 KiB), so |p| <= max_len is all a caller has to
+   provide.  (Finding F13, repaired in /repo: the former `len as u32 - 4` needed |p| + 4 < 2^32 in builds with
+   overflow checks.) *)
+Lemma write_with_frame_u32 w p :
   len p <= w_max w -> w_max w < 4294967296 ->
-  write_with false w (EncOk p) true = (WOk (len p), mkwriter (frame_of p) (w_max w), [be 4 (len p) ++ p]).
+  write_with w (EncOk p) true = (WOk (len p), mkwriter (frame_of p) (w_max w), [be 4 (len p) ++ p]).
+Proof. intros Hm Hs. apply write_with_frame; lia. Qed.
+
+(* the writer never panics, whatever the value and the limits (the usize `len - 4` cannot underflow) *)
+Lemma write_with_no_panic w e ok : fst (fst (write_with w e ok)) <> WPanic.
 Proof.
-  intros Hm Hs. unfold write_with. rewrite build_frame_release by assumption.
-  rewrite len_frame_of. replace (4 + len p - 4) with (len p) by lia. reflexivity.
+  unfold write_with. destruct (build_frame (w_buf w) (w_max w) e) as [b|er b|b] eqn:E.
+  - destruct ok; discriminate.
+  - discriminate.
+  - exfalso. eapply build_frame_no_panic. exact E.
 Qed.
